@@ -6,8 +6,8 @@
    (n < 2^64).  The "four owned/borrowed operand forms agree" and "user types work in every
    generic routine" clauses are decided by the correspondence check (harness/src/c19.rs and the
    Rat / Fp instantiations of every other property's harness). *)
-From Coq Require Import List ZArith NArith Bool.
-From EasyML Require Import Base.Sx Model.Num Model.Numeric Proofs.C19P.
+From Coq Require Import List ZArith NArith Bool Ring_theory.
+From EasyML Require Import Base.Sx Model.Num Model.Tape Model.Numeric Proofs.C19P.
 Import ListNotations.
 Open Scope Z_scope.
 
@@ -87,6 +87,95 @@ Theorem C19_record_trace_constants : forall R (ops : numops R),
              end).
 Proof. intros R ops. split; [exact (trace_constants ops)|exact (record_constants ops)]. Qed.
 
+(* ---- "trace/record wrappers inherit these": the operators of Trace and Record ---- *)
+
+(* every owned / borrowed operand form runs the `&x op &y` impl, and both negation impls agree
+   (the Rust side of the same fact is the harness cross-check of all forms) *)
+Theorem C19_wrapper_forms_agree : forall R (ops : numops R),
+  (forall op a b,
+     trace_vv ops op a b = trace_rr ops op a b /\ trace_vr ops op a b = trace_rr ops op a b /\
+     trace_rv ops op a b = trace_rr ops op a b /\ trace_neg_v ops a = trace_neg_r ops a) /\
+  (forall op t a b,
+     record_vv ops op t a b = record_rr ops op t a b /\ record_vr ops op t a b = record_rr ops op t a b /\
+     record_rv ops op t a b = record_rr ops op t a b /\ record_neg_v ops t a = record_neg_r ops t a).
+Proof. intros R ops. split; [exact (trace_forms_agree ops)|exact (record_forms_agree ops)]. Qed.
+
+(* Record arithmetic on constants stays constant: no tape, index 0, the tape state untouched *)
+Theorem C19_record_constants_closed : forall R (ops : numops R) op t a b,
+  rc_history a = None -> rc_history b = None ->
+  record_rr ops op t a b = Ok (mkRecord (fn_of ops op (rc_number a) (rc_number b)) None 0%nat, t) /\
+  record_neg_r ops t a = Ok (mkRecord (nneg ops (rc_number a)) None 0%nat, t) /\
+  record_neg_v ops t a = Ok (mkRecord (nneg ops (rc_number a)) None 0%nat, t).
+Proof. exact @record_constants_closed. Qed.
+
+(* an operand on a tape puts the result on that tape, at the entry just appended *)
+Theorem C19_record_tape_result : forall R (ops : numops R) op t a b r t',
+  record_rr ops op t a b = Ok (r, t') ->
+  (rc_history a <> None \/ rc_history b <> None) ->
+  rc_index r = length t /\ length t' = S (length t) /\
+  (rc_history r = rc_history a \/ rc_history r = rc_history b) /\ rc_history r <> None.
+Proof. exact @record_tape_result. Qed.
+
+Theorem C19_record_cross_tape_panics : forall R (ops : numops R) op t a b x y,
+  rc_history a = Some x -> rc_history b = Some y -> x <> y -> record_rr ops op t a b = Panic.
+Proof. exact @record_cross_tape_panics. Qed.
+
+(* Trace arithmetic on constants stays constant (derivative 0), over a commutative ring *)
+Theorem C19_trace_constants_closed : forall R (ops : numops R),
+  ring_theory (nzero ops) (none_ ops) (nadd ops) (nmul ops) (nsub ops) (nneg ops) eq ->
+  forall a b,
+  trace_rr ops 0 (trace_constant ops a) (trace_constant ops b) = trace_constant ops (nadd ops a b) /\
+  trace_rr ops 1 (trace_constant ops a) (trace_constant ops b) = trace_constant ops (nsub ops a b) /\
+  trace_rr ops 2 (trace_constant ops a) (trace_constant ops b) = trace_constant ops (nmul ops a b) /\
+  ((forall y, ndiv ops (nzero ops) y = nzero ops) ->
+   trace_rr ops 3 (trace_constant ops a) (trace_constant ops b) = trace_constant ops (ndiv ops a b)) /\
+  trace_neg_r ops (trace_constant ops a) = trace_constant ops (nneg ops a) /\
+  trace_neg_v ops (trace_constant ops a) = trace_constant ops (nneg ops a).
+Proof. exact @trace_constants_closed. Qed.
+
+(* zero and one are the identities of Trace arithmetic as DUAL numbers: 0 + t = t, 1 * t = t
+   including the derivative component *)
+Theorem C19_trace_identities : forall R (ops : numops R),
+  ring_theory (nzero ops) (none_ ops) (nadd ops) (nmul ops) (nsub ops) (nneg ops) eq ->
+  forall t,
+  trace_rr ops 0 (trace_zero ops) t = t /\ trace_rr ops 0 t (trace_zero ops) = t /\
+  trace_rr ops 2 (trace_one ops) t = t /\ trace_rr ops 2 t (trace_one ops) = t /\
+  trace_rr ops 1 t (trace_zero ops) = t /\
+  ((forall x, ndiv ops x (none_ ops) = x) -> trace_rr ops 3 t (trace_one ops) = t).
+Proof. exact @trace_identities. Qed.
+
+Theorem C19_trace_neg_spec : forall R (ops : numops R),
+  ring_theory (nzero ops) (none_ ops) (nadd ops) (nmul ops) (nsub ops) (nneg ops) eq ->
+  forall t, trace_neg_r ops t = mkTrace (nneg ops (tr_number t)) (nneg ops (tr_derivative t)).
+Proof. exact @trace_neg_spec. Qed.
+
+Theorem C19_record_identities : forall R (ops : numops R),
+  ring_theory (nzero ops) (none_ ops) (nadd ops) (nmul ops) (nsub ops) (nneg ops) eq ->
+  forall t x,
+  record_rr ops 0 t (record_zero ops) (record_constant x) = Ok (record_constant x, t) /\
+  record_rr ops 0 t (record_constant x) (record_zero ops) = Ok (record_constant x, t) /\
+  record_rr ops 2 t (record_one ops) (record_constant x) = Ok (record_constant x, t) /\
+  record_rr ops 2 t (record_constant x) (record_one ops) = Ok (record_constant x, t).
+Proof. exact @record_identities. Qed.
+
+(* non-vacuity of the ring / quotient hypotheses: the integers; and a product of two variables
+   on one tape records both partial derivatives *)
+Example C19_wrappers_nonvacuous :
+  ring_theory (nzero ZopsC19) (none_ ZopsC19) (nadd ZopsC19) (nmul ZopsC19) (nsub ZopsC19)
+              (nneg ZopsC19) eq /\
+  (forall y, ndiv ZopsC19 (nzero ZopsC19) y = nzero ZopsC19) /\
+  (forall x, ndiv ZopsC19 x (none_ ZopsC19) = x) /\
+  trace_rr ZopsC19 2 (mkTrace 3 1) (mkTrace 5 0) = mkTrace 15 5 /\
+  (let '(x, t1) := record_variable ZopsC19 0 [] 3 in
+   let '(y, t2) := record_variable ZopsC19 0 t1 5 in
+   record_rr ZopsC19 2 t2 x y =
+     Ok (mkRecord 15 (Some 0%nat) 2%nat, t2 ++ [mkEntry 0%nat 1%nat 5 3])) /\
+  record_rr ZopsC19 0 [] (mkRecord 1 (Some 0%nat) 0%nat) (mkRecord 1 (Some 1%nat) 0%nat) = Panic.
+Proof.
+  split; [exact ZopsC19_ring|]. split; [exact (proj1 ZopsC19_div)|]. split; [exact (proj2 ZopsC19_div)|].
+  vm_compute. repeat split.
+Qed.
+
 (* non-vacuity: i8 accepts 127 and refuses 128; i128's MAX truncates to usize::MAX so that the
    largest count is accepted and round-trips; wrapping i8 arithmetic wraps, saturating clamps *)
 Example C19_nonvacuous :
@@ -112,3 +201,11 @@ Print Assumptions C19_wrapper_results_in_range.
 Print Assumptions C19_wrapping_is_modular.
 Print Assumptions C19_identities_w64.
 Print Assumptions C19_record_trace_constants.
+Print Assumptions C19_wrapper_forms_agree.
+Print Assumptions C19_record_constants_closed.
+Print Assumptions C19_record_tape_result.
+Print Assumptions C19_record_cross_tape_panics.
+Print Assumptions C19_trace_constants_closed.
+Print Assumptions C19_trace_identities.
+Print Assumptions C19_trace_neg_spec.
+Print Assumptions C19_record_identities.
